@@ -205,6 +205,38 @@ def doJudge (a : Json) : Except String Json := do
       else go (i + 1) lister' m' rest
   go 0 [] Mgr.init (steps.zip (obs.zip settled))
 
+/-- `C10.auth`: exchanges through the shipped authentication / TLS wiring in the final state of a history
+    (`steps`), or in an OBSERVED state (`state`, then `steps` only provides the lister for the mirror judge). -/
+def doAuth (a : Json) : Except String Json := do
+  let lower ← decodeLower a
+  let steps ← (← J.getArr a "steps").toList.mapM decodeStep
+  let base ← decodeTLS (← J.getObj a "base")
+  let localAddr ← J.getHex a "localAddr"
+  let cp ← optNat a "cp"
+  let w := World.run lower World.init steps
+  let m ← match J.optObj a "state" with
+    | some st => decodeState st
+    | none => pure w.mgr
+  let reqs ← (← J.getArr a "reqs").toList.mapM fun r => do
+    match (← r.getArr?).toList with
+    | [s, h, c] =>
+      let ci ← c.getInt?
+      pure ((← J.asHex s), (← J.asHex h), (if ci < 0 then none else some ci.toNat))
+    | _ => throw "req triple expected"
+  let res := reqs.map fun (s, h, c) => wiredExchange lower m base cp true s localAddr h c
+  pure <| J.obj [
+    ("state", encState lower m),
+    ("out", Json.arr (res.map fun r => Json.str r.2.toString).toArray),
+    ("tls", Json.arr (res.map fun r => encTLS r.1).toArray),
+    ("inv", J.bool (invB lower m)),
+    ("mirror", J.bool (mirrorB lower w.lister m))]
+
+/-- `C10.invariant`: the state invariant on an observed state (run-loop cases, judged at quiescence) -/
+def doInvariant (a : Json) : Except String Json := do
+  let lower ← decodeLower a
+  let m ← decodeState (← J.getObj a "state")
+  pure (J.obj [("inv", J.bool (invB lower m))])
+
 def doHwp (a : Json) : Except String Json := do
   let lower ← decodeLower a
   let hs ← J.getHexList a "hosts"
@@ -215,6 +247,8 @@ def handle (m : String) (a : Json) : Option (Except String Json) :=
   | "run" => some (doRun a)
   | "judge" => some (doJudge a)
   | "hwp" => some (doHwp a)
+  | "auth" => some (doAuth a)
+  | "invariant" => some (doInvariant a)
   | _ => none
 
 end KG.Driver.C10
